@@ -176,15 +176,15 @@ var KindNames = []string{"glyf", "cff", "cid"}
 
 // FontSpec records the structural choices made (for samples and oracles).
 type FontSpec struct {
-	Kind    string
-	Glyphs  int
-	Shapes  int
-	CMap    string
-	Gsub    string
-	Gpos    string
-	Gdef    string
-	Devs    []string
-	Runes   map[rune]glyph.ID
+	Kind   string
+	Glyphs int
+	Shapes int
+	CMap   string
+	Gsub   string
+	Gpos   string
+	Gdef   string
+	Devs   []string
+	Runes  map[rune]glyph.ID
 }
 
 // FontOpts restricts the generator.
@@ -355,8 +355,8 @@ func Font(c *explore.Ctx, o FontOpts) (*sfnt.Font, *FontSpec) {
 		}
 		if len(t4) > 0 {
 			f.CMapTable = cmap.Table{
-				{PlatformID: 3, EncodingID: 1}:  t4.Encode(0),
-				{PlatformID: 3, EncodingID: 10}: t12.Encode(0),
+				{PlatformID: 3, EncodingID: 1}:              t4.Encode(0),
+				{PlatformID: 3, EncodingID: 10}:             t12.Encode(0),
 				{PlatformID: 1, EncodingID: 0, Language: 0}: t4.Encode(0),
 			}
 		} else {
